@@ -116,6 +116,44 @@ def r17_1(ctx):
         raise AnalysisError(f"only {n_sites} index() sites found")
 
 
+def _only_called_on_fresh_state(repo, f: Func) -> bool:
+    """every call of the method `f` in esp_menuconfig has as receiver a local that was bound, in the same function, to a new
+    MenuConfigState(...) and is used for nothing else in between (no attribute store, no other method call): the highlight
+    index still has the dataclass default 0"""
+    calls = []
+    for g in repo.all_funcs():
+        if not g.module.name.startswith("esp_menuconfig"):
+            continue
+        for n in ast.walk(g.node):
+            if isinstance(n, ast.Call) and isinstance(n.func, ast.Attribute) and n.func.attr == f.name and repo.enclosing_func(n) is g \
+                    and not ast.unparse(n.func.value).endswith("kconf"):
+                calls.append((g, n))
+    if not calls:
+        return False
+    cls = repo.cls(f"{MODEL}:MenuConfigState")
+    default0 = any(isinstance(b, ast.AnnAssign) and isinstance(b.target, ast.Name) and b.target.id == "sel_node_i" and (
+        (isinstance(b.value, ast.Constant) and b.value.value == 0) or
+        (isinstance(b.value, ast.Call) and ast.unparse(b.value.func).split(".")[-1] == "field"
+         and any(k.arg == "default" and isinstance(k.value, ast.Constant) and k.value.value == 0 for k in b.value.keywords)))
+                   for b in cls.body)
+    if not default0:
+        return False
+    for g, c in calls:
+        recv = c.func.value
+        if not isinstance(recv, ast.Name):
+            return False
+        body = g.node.body
+        news = [i for i, st in enumerate(body) if isinstance(st, ast.Assign) and len(st.targets) == 1 and ast.unparse(st.targets[0]) == recv.id
+                and isinstance(st.value, ast.Call) and ast.unparse(st.value.func).split(".")[-1] == "MenuConfigState"]
+        use = [i for i, st in enumerate(body) if any(x is c for x in ast.walk(st))]
+        if len(news) != 1 or len(use) != 1 or use[0] <= news[0]:
+            return False
+        for st in body[news[0] + 1:use[0]]:
+            if any(isinstance(x, ast.Name) and x.id == recv.id for x in ast.walk(st)):
+                return False
+    return True
+
+
 def r17_5(ctx):
     """R17.5 the highlighted row always exists: on every path through a method that replaces self.shown, sel_node_i is
     (re)established from .index() on the stored list, or set to 0 with the list known non-empty."""
@@ -197,7 +235,11 @@ def r17_5(ctx):
             if not ok:
                 bad = (ev[i][1], stored)
         construct = f"{f.short}/replacing the displayed list re-establishes the highlighted row"
-        if bad:
+        if bad and _only_called_on_fresh_state(repo, f):
+            # the list of a state that was created a moment ago is replaced: sel_node_i still has its initial value, exactly
+            # as if the constructor had computed this list (menuconfig() then deals with an empty one)
+            ctx.ok(construct, f.loc(stores[0]), paths=len(paths), fresh_state_only=True)
+        elif bad:
             ctx.bad(construct, f"a path stores `{bad[1]}` into self.shown (line {bad[0]}) without sel_node_i being taken from .index() on it or reset to 0 "
                     "on a list known non-empty: shown[sel_node_i] can raise IndexError", f"{f.module.relpath}:{bad[0]}")
         else:
